@@ -49,7 +49,10 @@ is accepted iff `bound c ∧ ¬ bound (c−1) ∧ c ≤ tCap`, which pins down `
 (`tLeastFast_eq`). -/
 
 def certified (p : Nat → Bool) (cap c : Nat) : Bool :=
-  p c && (c == 0 || !p (c - 1)) && decide (c ≤ cap)
+  decide (c ≤ cap) && p c && (c == 0 || !p (c - 1))
+
+/-- candidates above this size are not evaluated (`(2·d1)^t` would not fit in memory) -/
+def hintLimit : Nat := 2 ^ 20
 
 /-- first `2^k·start` (k ≤ fuel) at which `p` holds; never evaluates `p` beyond `cap` -/
 def expUp (p : Nat → Bool) (cap : Nat) : Nat → Nat → Nat
@@ -82,7 +85,7 @@ def tLeastFast (lam d0 d1 n q hint : Nat) : Option Nat :=
   let p := boundHolds lam d0 d1 n q
   let cap := tCap lam d1 q
   if noneCert lam d0 d1 n q then none
-  else if certified p cap hint then some hint
+  else if decide (hint ≤ hintLimit) && certified p cap hint then some hint
   else
     let c := searchCand p cap
     if certified p cap c then some c else tLeast lam d0 d1 n q
@@ -90,11 +93,12 @@ def tLeastFast (lam d0 d1 n q hint : Nat) : Option Nat :=
 /-- the cap is active: a `t` exists but `n − 1` openings do not suffice, so `min t n = n`
 (certificate for short codewords, where the least `t` itself is expensive to locate) -/
 def cappedCert (lam d0 d1 n q : Nat) : Bool :=
-  distanceUsable d0 d1 && decide (0 < q) && decide (0 < n) && !noneCert lam d0 d1 n q &&
+  decide (n ≤ hintLimit) && distanceUsable d0 d1 && decide (0 < q) && decide (0 < n) &&
+    !noneCert lam d0 d1 n q &&
     !boundHolds lam d0 d1 n q (n - 1)
 
 def tSpecFast (lam d0 d1 n q hint : Nat) : Option Nat :=
-  if cappedCert lam d0 d1 n q then some n
+  if decide (hint = n) && cappedCert lam d0 d1 n q then some n
   else (tLeastFast lam d0 d1 n q hint).map (capAt n)
 
 /-- Model of `calculate_t::<F>(lam, (d0, d1), n)` with `q = |F|`: `InvalidParameters` for an
